@@ -799,11 +799,11 @@ def scen_C03(ctx):
         ncp = 0
         for _ in range(ctx.scale(5, 14)):
             lines += g.hist(kt, g.rng.randrange(1, 40), keys=ks, big=0.03)
-            lines.append('trace')
+            lines += ['dirty m0', 'trace']
             op = g.rng.choice(SY + ['dbsyncall', 'dbsyncdata'])
             lines.append('%s %s' % (op, 'd0' if op.startswith('db') else 'm0'))
             g.count(op)
-            lines += ['trace', 'snap db']
+            lines += ['trace', 'dirty m0', 'snap db']
             if g.rng.random() < 0.5:
                 ncp += 1
                 lines.append('cpdir db c%d' % ncp)
@@ -842,7 +842,7 @@ def scen_C03(ctx):
                         seq, f, what = e.split(':')
                         if what in ('write', 'set_len'): last_write[f] = int(seq)
                         if what in ('sync_all', 'sync_data'): last_sync[f] = int(seq)
-                    if j > 0 and ops[j - 1].split()[0] in ('syncall', 'syncdata', 'dbsyncall', 'dbsyncdata') and il[j - 1] == 'ok':
+                    if j > 0 and ops[j - 1].split()[0] in ('syncall', 'syncdata', 'dbsyncall', 'dbsyncdata') and il[j - 1] == 'ok' and ops[j].split()[0] == 'trace':
                         missing = [f for f in ('val', 'key', 'htx') if last_write.get(f, 0) > last_sync.get(f, -1)]
                         if missing:
                             ctx.violation('trace_%d' % i, 'after `%s` returned Ok the io-trace shows buffered writes to %s that were never followed by an OS sync request '
@@ -1635,7 +1635,7 @@ def scen_C16(ctx):
             pre += ['flush m0'] + g.hist(kt, 10, keys=ks, big=big, reads=0.0)      # some chunks already clean
         # after the limit is lifted the same call must succeed and make everything durable: the files are checksummed and
         # the directory is copied while the handles are alive; the copy is opened and read completely at the end
-        lines = pre + ['limit %d' % L, '%s m0' % sy, 'snap db', 'unlimit'] + ['get m0 %s' % G.hx(k) for k in ks] + ['len m0', 'iter m0 iter',
+        lines = pre + ['limit %d' % L, '%s m0' % sy, 'dirty m0', 'snap db', 'unlimit'] + ['get m0 %s' % G.hx(k) for k in ks] + ['len m0', 'iter m0 iter',
                  '%s m0' % sy, 'snap db', 'cpdir db c1'] + g.hist(kt, 10, keys=ks, big=0.0) + ['flush m0', 'snap db', 'closeall', 'snap db'] + \
                 ['db dc c1', 'map mc dc %s m default' % kt] + ['get mc %s' % G.hx(k) for k in ks] + ['len mc', 'closeall']
         r = pair(ctx, 'fault', i, lines, stats=g.stats if i % 4 == 0 else None)
@@ -1648,7 +1648,11 @@ def scen_C16(ctx):
             ctx.distribution.setdefault('flush_under_limit', {})
             key = 'err' if res.startswith('err') else 'ok'
             ctx.distribution['flush_under_limit'][key] = ctx.distribution['flush_under_limit'].get(key, 0) + 1
-            rec = il[len(pre) + 4 + len(ks) + 2]
+            flag = il[j + 1]
+            if res.startswith('err') and flag != 'true':
+                ctx.violation('fault_flag_%d' % i, '%s under the file-size limit returned `%s` but the map reports is_dirty() = %s: the next flush would have nothing to do and the '
+                              'unwritten updates would never become durable' % (sy, res, flag), lines[:j + 2])
+            rec = il[len(pre) + 5 + len(ks) + 2]
             if rec != 'ok':
                 ctx.violation('fault_recovery_%d' % i, 'after the file-size limit was lifted, %s still returns `%s`' % (sy, rec), lines)
     cases = []
